@@ -26,6 +26,9 @@ import (
 
 var out *bufio.Writer
 var keys = []string{"k0", "k1", "k2", "k3"}
+
+// dumpKeys: the records of the histories plus the warm-up record
+var dumpKeys = []string{"k0", "k1", "k2", "k3", "kw"}
 var paths = []string{"/a", "/b", "/c"}
 
 type watcher struct {
@@ -62,7 +65,41 @@ func newHist(kind, id string, v3cancel bool) *hist {
 		h.copies[i] = map[string]*rec{}
 	}
 	fmt.Fprintf(out, "c15.begin\t%s\t%s\n", id, kind)
+	h.warmup()
 	return h
+}
+
+// warmup: the Atomix event subscription of a freshly opened store is not guaranteed to be in place when
+// NewAtomixStore returns (test runtime); write the warm-up record until a listener has seen it, so that the
+// histories start on a store whose event loop is live.  The writes are ordinary, reported operations.
+func (h *hist) warmup() {
+	ch := make(chan event, 64)
+	if err := h.a.watch(context.Background(), false, "", ch); err != nil {
+		return
+	}
+	seen := func(v uint64, d time.Duration) bool {
+		t := time.After(d)
+		for {
+			select {
+			case e := <-ch:
+				if e.version == v {
+					return true
+				}
+			case <-t:
+				return false
+			}
+		}
+	}
+	h.exec("c0:create:kw:0:-")
+	ok := seen(h.copies[0]["kw"].version, 200*time.Millisecond)
+	for i := 1; !ok && i < 20; i++ {
+		h.exec(fmt.Sprintf("c0:update:kw:%d:-", i))
+		ok = seen(h.copies[0]["kw"].version, 200*time.Millisecond)
+	}
+	go func() {
+		for range ch {
+		}
+	}()
 }
 
 func (h *hist) sid() string { h.step++; return fmt.Sprintf("%s.%d", h.id, h.step) }
@@ -94,7 +131,7 @@ func recStr(r *rec) string {
 func (h *hist) dump() (string, map[string]uint64) {
 	var s []string
 	cur := map[string]uint64{}
-	for _, k := range keys {
+	for _, k := range dumpKeys {
 		r, err := h.a.get(k)
 		if err != nil {
 			if code(err) != "notfound" {
@@ -464,6 +501,7 @@ func genHistory(r *rand.Rand, kind, id string, steps int, v3cancel bool) {
 // probeCancelIdle: cancel an idle watch (no replay in progress); an innocent watcher must still be served
 func probeCancelIdle(kind string) string {
 	a := open(kind, test.NewClient())
+	time.Sleep(100 * time.Millisecond)
 	r0 := &rec{key: "k0", idok: true, tgtok: true, txok: true, payload: 1}
 	must(a.create(r0))
 	inn := make(chan event, 1000)
@@ -495,6 +533,7 @@ func probeCancelIdle(kind string) string {
 // An innocent watcher must still be shown that write and the next one.
 func probeCancelInReplay(kind string) string {
 	a := open(kind, test.NewClient())
+	time.Sleep(100 * time.Millisecond)
 	var rs []*rec
 	for _, k := range []string{"k0", "k1", "k2"} {
 		r := &rec{key: k, idok: true, tgtok: true, txok: true, payload: 1}
@@ -569,6 +608,7 @@ func probe(id, name, kind string) string {
 // with the version it read and the version it obtained; watchers run throughout.
 func stress(r *rand.Rand, kind, id string, writers, rounds int) {
 	a := open(kind, test.NewClient())
+	time.Sleep(100 * time.Millisecond)
 	nk := 2
 	for i := 0; i < nk; i++ {
 		must(a.create(&rec{key: keys[i], idok: true, tgtok: true, txok: true, payload: 0}))
